@@ -376,6 +376,35 @@ pub fn case_hugestream(va: &dyn VariantApi, extra: u64) -> Result<(), String> {
     Ok(())
 }
 
+/// The one-call helper over a buffer of exactly MAX (+ extra) zero bytes: too large exactly when
+/// extra > 0; with exactly MAX bytes the outcome is what a generator fed the same bytes reports
+/// under default options (`whole`: compare with it, one more pass).
+pub fn case_hugebuf(va: &dyn VariantApi, big: &[u8], extra: usize, whole: bool) -> Result<(), String> {
+    let v = va.v();
+    let n = MAX as usize + extra;
+    let r = catch(|| va.hash_buf(&big[..n])).map_err(|p| format!("{}: hash_buf_for over {} bytes panicked: {}", v.name, n, p))?;
+    let Some(r) = r else { return Ok(()) };
+    let shown = format!("{:?}", r.as_ref().map(|h| h.display()));
+    if (r.as_ref().err() == Some(&GErr::TooLarge)) != (extra > 0) {
+        return Err(format!("{}: hash_buf_for over {} bytes (MAX + {}) returned {}; too-large is {}", v.name, n, extra, shown, if extra > 0 { "expected" } else { "not expected" }));
+    }
+    if let Ok(h) = &r {
+        if h.lvalue() != 169 {
+            return Err(format!("{}: hash_buf_for over exactly MAX bytes carries length code {}", v.name, h.lvalue()));
+        }
+    }
+    if whole && extra == 0 {
+        let mut g = va.generator();
+        g.update(&big[..1 << 31]);
+        g.update(&big[1 << 31..n]);
+        let want = format!("{:?}", g.finalize_default().map(|h| h.display()));
+        if want != shown {
+            return Err(format!("{}: hash_buf_for over exactly MAX bytes = {} but a generator fed the same bytes gives {}", v.name, shown, want));
+        }
+    }
+    Ok(())
+}
+
 pub const HUGE: usize = (1usize << 32) + 4096;
 
 fn run_hugeslice(ctx: &Ctx) -> CheckResult {
@@ -416,18 +445,40 @@ fn run_hugeslice(ctx: &Ctx) -> CheckResult {
     } else {
         (0..vs.len()).flat_map(|i| [(i, 1u64), (i, 0), (i, 1 << 20)]).collect()
     };
-    let n_slice = jobs.len();
     for &(i, extra) in &streams {
         jobs.push((i, usize::MAX, extra as usize, None));
     }
-    let res = par_map(ctx.threads, &jobs, |&(i, pre, len, room)| if pre == usize::MAX { case_hugestream(vs[i], len as u64) } else { case_hugeslice(vs[i], &big, pre, len, room) });
-    let _ = n_slice;
+    // one-call helper jobs: (variant, usize::MAX - 1, extra, _)
+    if ctx.api.caps().easy {
+        if quick {
+            let i = ((ctx.seed + 2) % vs.len() as u64) as usize;
+            jobs.push((i, usize::MAX - 1, 0, None));
+            jobs.push(((i + 1) % vs.len(), usize::MAX - 1, 1, None));
+        } else {
+            for i in 0..vs.len() {
+                jobs.push((i, usize::MAX - 1, 0, Some(1)));
+                jobs.push((i, usize::MAX - 1, 1, None));
+            }
+        }
+    }
+    let res = par_map(ctx.threads, &jobs, |&(i, pre, len, room)| {
+        if pre == usize::MAX {
+            case_hugestream(vs[i], len as u64)
+        } else if pre == usize::MAX - 1 {
+            case_hugebuf(vs[i], &big, len, room.is_some())
+        } else {
+            case_hugeslice(vs[i], &big, pre, len, room)
+        }
+    });
     for (&(i, pre, len, room), r) in jobs.iter().zip(res) {
         ctx.ev.borrow_mut().evaluations += 1;
         ctx.ev.borrow_mut().nontrivial_enumerated += 1;
         if let Err(m) = r {
             if pre == usize::MAX {
                 return Err(ctx.violation("hugestream", m, json!({"variant": vs[i].v().name, "extra": len})));
+            }
+            if pre == usize::MAX - 1 {
+                return Err(ctx.violation("hugebuf", m, json!({"variant": vs[i].v().name, "extra": len})));
             }
             return Err(ctx.violation("hugeslice", m, json!({"variant": vs[i].v().name, "pre": pre, "len": len, "room": room})));
         }
@@ -459,6 +510,7 @@ pub fn replay(ctx: &Ctx, check: &str, case: &Value) -> Result<(), String> {
             let c: Cross = serde_json::from_value(case.get("cross").cloned().ok_or("no cross")?).map_err(|e| e.to_string())?;
             case_cross(va, &c, &st)
         }
+        "hugebuf" => case_hugebuf(va, &vec![0u8; HUGE], case.get("extra").and_then(|x| x.as_u64()).unwrap_or(0) as usize, true),
         "hugestream" => case_hugestream(va, case.get("extra").and_then(|x| x.as_u64()).unwrap_or(1)),
         "hugeslice" => {
             let pre = case.get("pre").and_then(|x| x.as_u64()).unwrap_or(0) as usize;
